@@ -52,6 +52,14 @@ type NodeSpec struct {
 	// Fail = 1 + kind code of the critical section of this node whose user function returns an
 	// error after it has updated the state (0 = none): 1 pre-handler, 2 post-handler, 3+j body j
 	Fail int `json:"fail,omitempty"`
+	// Rerun = 1 + k: the first execution of this lambda performs k of its ProcessState calls and
+	// then returns compose.InterruptAndRerun (0 = never); after the resume the node is executed
+	// again from scratch - pre-handler included - with the zero value as input. For the model the
+	// interrupted attempt is a node of its own (id, pre-handler, k calls, no post-handler) whose
+	// only successor is the re-execution (id + stride, Zero).
+	Rerun int `json:"rerun,omitempty"`
+	// Zero (set by unroll): the node's input is the zero value whatever its predecessors deliver
+	Zero bool `json:"zero,omitempty"`
 }
 
 type GraphSpec struct {
@@ -88,6 +96,9 @@ type Case struct {
 	Runs       int         `json:"runs"`
 	Concurrent bool        `json:"concurrent,omitempty"`
 	Stream     bool        `json:"stream,omitempty"` // call Stream instead of Invoke
+	// Call: "" (Invoke, or Stream when Stream is set) | "collect" | "transform": the entry the
+	// caller uses (the input of Collect / Transform is a one-chunk stream)
+	Call string `json:"call,omitempty"`
 	Interrupt  *IntSpec    `json:"interrupt,omitempty"`
 	// Again: after an interrupted run has been resumed to completion, resume once more from
 	// the checkpoint the store still holds (the last one written): a second, independent
@@ -232,6 +243,7 @@ type rec struct {
 	rounds  map[[3]int]int // (run, node, what) -> how often it has been executed in that run
 	replays []replayInfo
 	unrolled *Case
+	rerunIDs map[int]bool // lambdas that interrupt themselves once
 }
 
 // replayInfo describes a second continuation (Case.Again) of run From from its last checkpoint.
@@ -319,8 +331,22 @@ func (h *rec) yield() {
 }
 
 // cs is the body of every critical section.
+// execs: how often the body of lambda node has been started in this run
+func (h *rec) execs(ctx context.Context, node int) int {
+	h.mu.Lock()
+	defer h.mu.Unlock()
+	return h.rounds[[3]int{runOf(ctx), node, -1}]
+}
+
 func (h *rec) cs(ctx context.Context, node, kc int, x []KV, s *St) []KV {
-	node += h.round(ctx, node, kc) * stride
+	if h.rerunIDs[node] && kc != kPre {
+		// a node that interrupts itself: the ProcessState calls and the post-handler belong to
+		// the execution of the body in progress / just finished (an interrupted attempt has
+		// performed only some of the calls and no post-handler)
+		node += (h.execs(ctx, node) - 1) * stride
+	} else {
+		node += h.round(ctx, node, kc) * stride
+	}
 	atomic.AddInt64(&h.active, 1)
 	defer atomic.AddInt64(&h.active, -1)
 	if s.Busy {
@@ -463,7 +489,51 @@ func (c *Case) unroll() *Case {
 		ng.Nodes = nodes
 		u.Forest[gi] = ng
 	}
+	for gi := range u.Forest {
+		u.Forest[gi].Nodes = expandRerun(u.Forest[gi].Nodes)
+	}
 	return &u
+}
+
+// expandRerun: a self-interrupting lambda n (Rerun = 1+k) becomes the interrupted attempt (id n,
+// pre-handler, k ProcessState calls, no post-handler, fed like n) followed by the re-execution
+// (id n+stride, everything n has, zero input, fed by the attempt); n's successors follow the
+// re-execution.
+func expandRerun(nodes []NodeSpec) []NodeSpec {
+	re := map[int]bool{}
+	for _, n := range nodes {
+		if n.Rerun > 0 && n.Sub < 0 {
+			re[n.ID] = true
+		}
+	}
+	if len(re) == 0 {
+		return nodes
+	}
+	var out []NodeSpec
+	for _, n := range nodes {
+		m := n
+		m.Preds = nil
+		for _, p := range n.Preds {
+			if re[p] {
+				p += stride
+			}
+			m.Preds = append(m.Preds, p)
+		}
+		if !re[n.ID] {
+			out = append(out, m)
+			continue
+		}
+		att := m
+		att.Post, att.SPost, att.PostTy = false, false, nil
+		att.PS = n.Rerun - 1
+		att.Rerun, att.Fail = 0, 0
+		out = append(out, att)
+		m.ID = n.ID + stride
+		m.Preds = []int{n.ID}
+		m.Rerun, m.Zero = 0, true
+		out = append(out, m)
+	}
+	return out
 }
 
 // effGraph: index (in the unrolled forest) of the instance of graph gi that is current in run
@@ -545,6 +615,9 @@ func (c *Case) sinks(g *GraphSpec) []NodeSpec {
 // keys of the map a node outputs
 func (c *Case) outKeys(n NodeSpec) []int {
 	if n.Sub < 0 || n.Sub >= len(c.Forest) {
+		if n.Rerun > 0 {
+			return []int{n.ID + stride} // what the re-execution delivers
+		}
 		return []int{n.ID}
 	}
 	// a nested graph delivers what its last nodes deliver: with a loop, the last round's copies
@@ -685,16 +758,24 @@ func processState[S any](h *rec, ctx context.Context, id, kc int, x *[]KV, fail 
 }
 
 func (h *rec) lambda(n NodeSpec, psTy int) *compose.Lambda {
-	id, ps, delay, failKC := n.ID, n.PS, n.DelayUs, n.Fail
+	id, ps, delay, failKC, rerun := n.ID, n.PS, n.DelayUs, n.Fail, n.Rerun
 	return compose.InvokableLambda(func(ctx context.Context, in M) (M, error) {
 		atomic.AddInt64(&h.active, 1)
 		defer atomic.AddInt64(&h.active, -1)
 		x := fromM(in)
-		uid := id + h.round(ctx, id, -1)*stride
+		rnd := h.round(ctx, id, -1)
+		uid := id + rnd*stride
 		if delay > 0 {
 			time.Sleep(time.Duration(delay) * time.Microsecond)
 		}
+		stopAt := -1 // the first execution of a self-interrupting node stops after that many calls
+		if rerun > 0 && rnd == 0 {
+			stopAt = rerun - 1
+		}
 		for j := 0; j < ps; j++ {
+			if j == stopAt {
+				return nil, compose.InterruptAndRerun
+			}
 			var err, fail error
 			if failKC == kBody+j+1 {
 				fail = errInjected
@@ -708,6 +789,9 @@ func (h *rec) lambda(n NodeSpec, psTy int) *compose.Lambda {
 				return nil, err
 			}
 			h.yield()
+		}
+		if stopAt >= 0 {
+			return nil, compose.InterruptAndRerun
 		}
 		return toM(leafOut(uid, x)), nil
 	})
@@ -739,7 +823,7 @@ func (c *Case) compileOpts(gi int) []compose.GraphCompileOption {
 	if g.Loop != nil {
 		opts = append(opts, compose.WithMaxRunSteps(len(g.Nodes)*(g.Loop.Iter+1)+10))
 	}
-	if c.Interrupt != nil && c.Interrupt.Graph == gi {
+	if c.Interrupt != nil && c.Interrupt.Graph == gi && len(c.Interrupt.Nodes) > 0 {
 		var keys []string
 		for _, id := range c.Interrupt.Nodes {
 			keys = append(keys, nkey(id))
@@ -882,6 +966,7 @@ type Obs struct {
 	Gens     int64     `json:"gens"`
 	Overlap  bool      `json:"overlap"`
 	IntSeen  bool      `json:"interrupted,omitempty"`
+	ModRuns  []int     `json:"mod_runs,omitempty"` // runs (final indices) resumed with a state modifier
 }
 
 type FinalOb struct {
@@ -935,14 +1020,33 @@ func (c *Case) infoSnaps(info *compose.InterruptInfo, gi int, out *[]SnapState, 
 
 func (h *rec) call(c *Case, r compose.Runnable[M, M], ctx context.Context, opts ...compose.Option) (M, error) {
 	in := M{vkey(0): c.X0}
-	if c.Stream {
+	switch c.callKind() {
+	case "stream":
 		sr, err := r.Stream(ctx, in, opts...)
 		if err != nil {
 			return nil, err
 		}
 		return readAll(sr)
+	case "transform":
+		sr, err := r.Transform(ctx, schema.StreamReaderFromArray([]M{in}), opts...)
+		if err != nil {
+			return nil, err
+		}
+		return readAll(sr)
+	case "collect":
+		return r.Collect(ctx, schema.StreamReaderFromArray([]M{in}), opts...)
 	}
 	return r.Invoke(ctx, in, opts...)
+}
+
+func (c *Case) callKind() string {
+	switch {
+	case c.Call == "collect" || c.Call == "transform":
+		return c.Call
+	case c.Stream:
+		return "stream"
+	}
+	return "invoke"
 }
 
 func (h *rec) runOpts(c *Case, run, cpRun int) []compose.Option {
@@ -950,7 +1054,7 @@ func (h *rec) runOpts(c *Case, run, cpRun int) []compose.Option {
 	if c.Interrupt != nil {
 		opts = append(opts, compose.WithCheckPointID(fmt.Sprintf("cp%d", cpRun)))
 	}
-	if c.Interrupt != nil && c.Interrupt.Modifier {
+	if c.modFor(cpRun) {
 		opts = append(opts, compose.WithStateModifier(func(ctx context.Context, path compose.NodePath, state any) error {
 			s := asSt(state)
 			if s == nil {
@@ -968,6 +1072,13 @@ func (h *rec) runOpts(c *Case, run, cpRun int) []compose.Option {
 		}))
 	}
 	return opts
+}
+
+// modFor: is run number run (the original run a continuation belongs to) resumed with the caller's
+// state modifier? With several runs only the even ones are: what one run is called with must not
+// show in another run that overlaps with it.
+func (c *Case) modFor(run int) bool {
+	return c.Interrupt != nil && c.Interrupt.Modifier && run%2 == 0
 }
 
 // lastInt is what is known about the last interrupt of a run.
@@ -1058,7 +1169,15 @@ func (c *Case) execute() (o Obs, hang bool) {
 		_ = compose.RegisterSerializableType[St]("c11_state")
 		_ = compose.RegisterSerializableType[St2]("c11_state2")
 	})
-	h := &rec{yseed: c.Yield, mods: map[int][]int{}, rounds: map[[3]int]int{}, gens: map[int]int64{}, unrolled: c.unroll()}
+	h := &rec{yseed: c.Yield, mods: map[int][]int{}, rounds: map[[3]int]int{}, gens: map[int]int64{}, unrolled: c.unroll(),
+		rerunIDs: map[int]bool{}}
+	for _, g := range c.Forest {
+		for _, n := range g.Nodes {
+			if n.Rerun > 0 && n.Sub < 0 {
+				h.rerunIDs[n.ID] = true
+			}
+		}
+	}
 	top, err := h.build(c, 0, 0)
 	if err != nil {
 		return Obs{BuildErr: "add"}, false
@@ -1204,6 +1323,16 @@ func (c *Case) execute() (o Obs, hang bool) {
 		}
 		o.Gens += rp.PrefixGens
 	}
+	for i := 0; i < c.Runs; i++ {
+		if c.modFor(i) {
+			o.ModRuns = append(o.ModRuns, i)
+		}
+	}
+	for k, rp := range h.replays {
+		if c.modFor(rp.From) {
+			o.ModRuns = append(o.ModRuns, c.Runs+k)
+		}
+	}
 	for orig, fake := range fakes {
 		// the original's objects of the prefix are not touched after the checkpoint
 		*fake = St{Total: orig.Total, Log: append([]int64{}, orig.Log...), Cnt: map[string]int64{}}
@@ -1319,6 +1448,10 @@ func (c *Case) coqForest() string {
 			}
 			ns[j] = lib.CoqApp("mkNode", lib.CoqN(uint64(n.ID)), lib.CoqBool(n.Pre), lib.CoqBool(n.Post), sub,
 				lib.CoqNat(n.PS), lib.CoqList(preds))
+			if n.Zero {
+				ns[j] = lib.CoqApp("mkNodeZ", lib.CoqN(uint64(n.ID)), lib.CoqBool(n.Pre), lib.CoqBool(n.Post), sub,
+					lib.CoqNat(n.PS), lib.CoqList(preds), "true")
+			}
 		}
 		gs[i] = lib.CoqApp("mkGraph", mode, lib.CoqBool(g.State), lib.CoqList(ns))
 	}
@@ -1376,6 +1509,10 @@ func (c *Case) coqTerm(o *Obs) string {
 				lib.CoqPair(lib.CoqN(uint64(tyOr(n.PostTy, g.STy))), lib.CoqN(uint64(tyOr(n.PSTy, c.visibleTy(gi))))))))
 		}
 	}
+	modRuns := make([]string, len(o.ModRuns))
+	for i, r := range o.ModRuns {
+		modRuns[i] = lib.CoqN(uint64(r))
+	}
 	failing := false
 	for _, g := range c.Forest {
 		for _, n := range g.Nodes {
@@ -1384,7 +1521,7 @@ func (c *Case) coqTerm(o *Obs) string {
 	}
 	return lib.CoqApp("mkCase", c.coqForest(), lib.CoqList(gty), lib.CoqList(nty), lib.CoqBool(failing), coqX([]KV{{0, c.X0}}), lib.CoqN(uint64(len(o.Results))),
 		lib.CoqBool(o.BuildErr != ""), "\n  "+lib.CoqList(logs), "\n  "+lib.CoqList(finals), lib.CoqList(results),
-		lib.CoqN(uint64(o.Gens)), lib.CoqBool(c.Interrupt != nil && c.Interrupt.Modifier))
+		lib.CoqN(uint64(o.Gens)), lib.CoqList(modRuns))
 }
 
 func (e engine) Run(ci any) lib.Result {
@@ -1467,14 +1604,17 @@ func (c *Case) tags(o *Obs) []string {
 	if len(o.Results) > c.Runs {
 		t = append(t, "resume:again")
 	}
+	for _, g := range c.Forest {
+		for _, n := range g.Nodes {
+			if n.Rerun > 0 && n.Sub < 0 {
+				t = append(t, "rerun-node")
+			}
+		}
+	}
 	if c.Interrupt != nil && o.IntSeen && c.Runs > 1 {
 		t = append(t, "interrupt:multi-run")
 	}
-	if c.Stream {
-		t = append(t, "call:stream")
-	} else {
-		t = append(t, "call:invoke")
-	}
+	t = append(t, "call:"+c.callKind())
 	if c.Interrupt != nil {
 		if o.IntSeen {
 			t = append(t, "interrupt:resumed")
@@ -1717,7 +1857,7 @@ func (c *Case) oracle(o *Obs) (string, string) {
 	if c.Interrupt != nil && !c.mustFail() {
 		for _, r := range o.Resumes {
 			var want []int
-			if c.Interrupt.Modifier {
+			if o.modRun(r.Run) {
 				for _, sn := range r.Snaps {
 					want = append(want, sn.Graph)
 				}
@@ -1827,6 +1967,15 @@ func (c *Case) oracle(o *Obs) (string, string) {
 	return "", ""
 }
 
+func (o *Obs) modRun(run int) bool {
+	for _, r := range o.ModRuns {
+		if r == run {
+			return true
+		}
+	}
+	return false
+}
+
 // mustRefuse: some node has a state handler although its graph declares no state, or a
 // handler written for the other state type.
 func (c *Case) mustRefuse() bool {
@@ -1915,6 +2064,8 @@ func (ev *flowEval) nodeIn(gi int, n NodeSpec) []KV {
 				}
 			}
 		}
+	} else if n.Zero {
+		v = []KV{} // the re-execution of a node that interrupted itself starts from the zero value
 	} else {
 		var xs [][]KV
 		for _, p := range n.Preds {
